@@ -1,6 +1,6 @@
 """C12 - tree utilities are faithful to the tree's decision function."""
 from vf import loader
-from vf.core import Clause, Outcome, Violation, require
+from vf.core import Clause, Outcome, Violation, require, with_sk
 
 import numpy as np
 from hypothesis import strategies as st
@@ -59,6 +59,9 @@ def check_digitize(case):
     xs.extend(case["x"])
     x32 = _f32(xs)
     x32 = x32[np.isfinite(x32)]
+    if case.get("nan_query"):
+        # numpy.digitize is defined for NaN (it sorts last): "every x" includes it
+        x32 = np.concatenate([x32, _f32([np.nan])])
     x64 = x32.astype(np.float64)
     expected = np.digitize(x64, bins, right=True)
     tree = _dig.digitize2tree(bins_in, right=True)
@@ -80,7 +83,7 @@ def check_digitize(case):
         pass
     edge_hit = bool(np.isin(x64, bins).any())
     labels = ["descending" if desc else "ascending", "n=1" if n == 1 else ("n=2" if n == 2 else ("n<=8" if n <= 8 else "n>8")),
-              "edge-hit" if edge_hit else "no-edge-hit", case.get("kind", "grid"), "bins:" + bd]
+              "edge-hit" if edge_hit else "no-edge-hit", case.get("kind", "grid"), "bins:" + bd, "nan-query" if case.get("nan_query") else "finite-queries"]
     return Outcome(labels, n >= 3 and edge_hit)
 
 
@@ -115,7 +118,7 @@ def _digitize_cases(draw, tier="quick"):
         bins = sorted(float(v) for v in vals)
         if draw(st.booleans()):
             bins = bins[::-1]
-    return dict(bins=bins, x=x, kind=kind, bins_dtype=bd)
+    return dict(bins=bins, x=x, kind=kind, bins_dtype=bd, nan_query=draw(st.booleans()))
 
 
 def _length_cases(tier):
@@ -266,10 +269,10 @@ def _tree_cases(draw, tier="quick"):
 
 
 CLAUSES = [
-    Clause("digitize", check_digitize, strategy=lambda tier: _digitize_cases(tier), quick=2500, thorough=60000, quick_shards=8,
+    Clause("digitize", check_digitize, strategy=lambda tier: with_sk(_digitize_cases(tier)), quick=2500, thorough=60000, quick_shards=8,
            doc="digitize2tree(bins, right=True).predict == numpy.digitize(right=True), all bins directions"),
     Clause("digitize-lengths", check_digitize, cases=_length_cases, quick_shards=4, exhaustive=True,
            doc="every bins length in the bounds, both directions, all edges/midpoints/neighbours"),
-    Clause("trees", check_tree, strategy=lambda tier: _tree_cases(tier), quick=1500, thorough=30000, quick_shards=8,
+    Clause("trees", check_tree, strategy=lambda tier: with_sk(_tree_cases(tier)), quick=1500, thorough=30000, quick_shards=8,
            doc="predict_leaves == apply, tree_leave_index == nodes without children, tree_node_range box <=> routing"),
 ]
